@@ -3,6 +3,8 @@
 
 pub mod chain;
 pub mod dump;
+pub mod gen;
+pub mod grid;
 pub mod kernel;
 pub mod ops;
 
